@@ -234,3 +234,11 @@ func FreshF64(lo, hi float64) float64 { return lo }
 
 // Advance lets an arbitrary amount of (symbolic) time pass; natively time passes by itself.
 func Advance() {}
+
+// PickStr returns a or b, as the replay file says (symbolically: an if-then-else term, no path fork).
+func PickStr(label string, a, b string) string {
+	if Bool(label) {
+		return b
+	}
+	return a
+}
